@@ -1,9 +1,9 @@
 package main
 
 import (
-	"regexp"
 	"encoding/hex"
 	"fmt"
+	"regexp"
 	"sort"
 	"strconv"
 	"strings"
@@ -170,8 +170,8 @@ func init() {
 		if thorough {
 			n = 12000
 		}
-		return []CaseSet{genOptionSets(r, n), genManyUnknown(r, 1+n/40), genUnknownChains(r, 1+n/10), genUnknownTies(r, 6)},
-			"streams mixing known and unknown messages and unlisted fields, whole and cut, each under all 8 option combinations, and with the logger (a custom one, the standard one) given before or after the other options; chains of 2-4 files with different sets of unknown message numbers and unlisted fields through DecodeChained under the list-producing option sets (every file's lists are its own); the same unlisted field number in known messages whose numbers differ by 256 or whose low bytes collide, and unknown messages 256 apart (an ordering that compares truncated keys leaves ties to map order). Oracles: messages, error class and bytes consumed identical across option sets; lists sorted; counts equal the model's", false
+		return []CaseSet{genOptionSets(r, n), genManyUnknown(r, 1+n/40), genUnknownChains(r, 1+n/10), genUnknownTies(r, 6), genUnknownCounterWidths(r)},
+			"streams mixing known and unknown messages and unlisted fields, whole and cut, each under all 8 option combinations, and with the logger (a custom one, the standard one) given before or after the other options; chains of 2-4 files with different sets of unknown message numbers and unlisted fields through DecodeChained under the list-producing option sets (every file's lists are its own); one unlisted field and one unknown message occurring 255 … 65537 times in a file (counts exact whatever integer type holds them); the same unlisted field number in known messages whose numbers differ by 256 or whose low bytes collide, and unknown messages 256 apart (an ordering that compares truncated keys leaves ties to map order). Oracles: messages, error class and bytes consumed identical across option sets; lists sorted; counts equal the model's", false
 	}
 	propPost["C16"] = postC16
 
@@ -232,7 +232,14 @@ func init() {
 		return []CaseSet{genEveryEntry(r), genSingleField(r, stride), genEveryFieldAlone(r, "rt", fileKnobs{inDomain: true})},
 			"every (message, field) entry of the compiled-in profile with its exact base type and size in both byte orders and four payloads, in a file type that hosts the message (the dump shows which struct field changed and to what); plus the single-field definition sweep; every field of every hosted message set alone (arrays shorter than the profile length included) through Encode and Decode: no profile-driven access of the encoder may fail; the tables themselves are regenerated by reflection and re-checked by the kernel (gen_wf); every (message, field number) shared with the newest bundled SDK workbook must designate the struct field of the workbook's name and type", true
 	}
-	propPost["C15"] = func(res *RunResult) { postNoPanic(res); sdkAssignment(res); sdkSnapshot(res); constructorInvalids(res); containersKnown(res); entryKinds(res) }
+	propPost["C15"] = func(res *RunResult) {
+		postNoPanic(res)
+		sdkAssignment(res)
+		sdkSnapshot(res)
+		constructorInvalids(res)
+		containersKnown(res)
+		entryKinds(res)
+	}
 }
 
 func postC10(res *RunResult) {
@@ -382,7 +389,7 @@ func postC11(res *RunResult) {
 	// own (the model's results depend on the bytes and the kind of end only: decode_out_eq_spec)
 	type dkey struct {
 		entry, opts, data string
-		fault            bool
+		fault             bool
 	}
 	type dval struct{ dump, tag, c, out string }
 	firstDelivery := map[dkey]dval{}
@@ -1081,6 +1088,28 @@ func genChainInherits(r *rng, n int) CaseSet {
 		if r.chance(30) {
 			cs.Cases = append(cs.Cases, decCase("decode", "000", spec, "-", chain[len(first):]))
 		}
+	}
+	return cs
+}
+
+// genUnknownCounterWidths: the same unlisted field of a known message, and the same unknown message,
+// occurring 255, 256, 257, 65535, 65536 and 65537 times in one file: the counts are exact whatever
+// integer type the decoder keeps them in.
+func genUnknownCounterWidths(r *rng) CaseSet {
+	cs := CaseSet{Name: "unknown-item-counts-around-integer-widths"}
+	for _, n := range []int{255, 256, 257, 65535, 65536, 65537} {
+		var b recs
+		b.Write(fileIdRecs(4, 0))
+		// hrm_profile (4) is a known message that an activity file does not keep: its unlisted fields
+		// are counted, and the File stays small however many records there are
+		b.def(defn{local: 1, global: 4, fields: []fdef{{200, 1, 0x02}}})
+		b.def(defn{local: 2, global: 0xFF20, fields: []fdef{{0, 1, 0x02}}})
+		for k := 0; k < n; k++ {
+			b.data(1, []byte{byte(k)})
+			b.data(2, []byte{byte(k)})
+		}
+		data := frame(b.Bytes(), defaultFrame())
+		cs.Cases = append(cs.Cases, decCase([]string{"decode", "chained"}[n%2], "011", "-", "-", data))
 	}
 	return cs
 }
